@@ -179,6 +179,40 @@ def gen_module(rng, feats=frozenset(), size=8):
                 body += ["i32.wrap_i64", "i32.const 1", "call $%s" % g.name, "i64.extend_i32_u"]
         f.body = body
 
+    # dead code: calls that can never execute — after an unconditional top-level or nested
+    # `return` / `unreachable` / `br` — are still references: their targets must be kept (the
+    # stripped text still contains the `call`).  The targets below are referenced from nowhere else.
+    extras = []
+    hosts = [f for f in allf if f.live and f.kind == "T"]
+    if hosts and "nodeadcode" not in feats and rng.random() < 0.75:
+        for k in range(rng.randint(1, 3)):
+            g = Fn(rng.choice(["cleanup%d", "fini.%d", "$dead.$after%d"]) % k, "T")
+            g.body = ["(local $r i32)", "local.get $x", "i32.const %d" % rng.randint(1, 999), "i32.xor"]
+            if rng.random() < 0.5:
+                t = rng.choice(hosts)
+                g.calls.append(t.name)
+                g.body += ["i32.const 0", "call $%s" % t.name]
+            extras.append(g)
+            for host in rng.sample(hosts, min(len(hosts), rng.randint(1, 2))):
+                dead = ["local.get $r", "local.get $d", "call $%s" % g.name, "local.set $r"]
+                host.calls.append(g.name)
+                mode = rng.random()
+                if mode < 0.40:      # top level: ... return <dead> (result)
+                    assert host.body[-1] == "local.get $r"
+                    host.body[-1:] = ["local.get $r", "return"] + dead + ["local.get $r"]
+                elif mode < 0.50:    # top level: br 0 out of the function body
+                    host.body[-1:] = ["local.get $r", "br 0"] + dead + ["local.get $r"]
+                elif mode < 0.60:    # top level: unconditional unreachable (the function always traps here)
+                    host.body[-1:] = ["unreachable"] + dead + ["local.get $r"]
+                else:                # nested: return inside if, unreachable inside else, br out of a block
+                    lb = fresh("bd")
+                    snippet = ["block $%s" % lb,
+                               "local.get $r", "i32.const %d" % rng.choice([1, 2, 4]), "i32.and", "if",
+                               "local.get $r", "i32.const 1", "i32.and", "if",
+                               "local.get $x", "return"] + dead + ["else"] + \
+                              (["unreachable"] + dead if rng.random() < 0.3 else ["nop"]) + ["end", "end",
+                               "br $%s" % lb] + dead + ["end"]
+                    host.body[15:15] = snippet
     # roots: exports + elem
     live_T = [f for f in allf if f.live and f.kind == "T"]
     nexp = rng.randint(1, max(1, min(4, len(live_T))))
@@ -238,6 +272,8 @@ def gen_module(rng, feats=frozenset(), size=8):
             g.live = True
             noninline_exports.append(("", g.name))
     order = list(allf) + [getter, peek]
+    for g in extras:
+        order.insert(rng.randrange(len(order) + 1), g)
     if "start" in feats:
         st = Fn("st.init", "V")
         tp = [g for g in allf if g.live and g.kind == "T"]
